@@ -443,8 +443,9 @@ end RestoreIndex
 /-! ## T3, the part that is proved: `CoreVM` does not depend on what `_clean_up_state` removes — function by function
 
 `Bisim.Aged rm s s'` (Lemmas/CleanUpBisimFns.lean): `s'` is `s` without the instances `rm`: `flow_states` and the index
-component filtered (both dispatch maps untouched), the remaining records equal up to the dropped uids in `child_flow_uids` /
-scope lists and the time stamp (the aged record is at least as old), `flow_id_states` entries filtered, the action
+component filtered (both dispatch maps untouched), the remaining records equal up to occurrences of discarded uids in
+`child_flow_uids` / scope lists (both sides filtered: a second activating parent keeps the dangling uid) and the time stamp (the
+aged record is at least as old), `flow_id_states` entries filtered, the action
 table a part of the live one that contains what kept instances refer to, everything else equal, the aged clock later;
 only done instances are in `rm`.  `Bisim.Rel2` = two observations cannot be told apart, `Bisim.Sim2` = two runs end in
 related states with related results (or the same exception).
